@@ -381,31 +381,10 @@ def r11_no_shared_class_state(ctx, rule):
     """The scorer's tables belong to one scorer object: a mutable object bound in a class body (a dict / list / set / Counter
     default, annotated or not) is shared by every instance, so loading a second ruleset overwrites the tables of a scorer that is
     already in use and its scores no longer depend on its own ruleset only (seed C13-g)."""
-    n = 0
-    bad = False
-    for rel, m in ctx.repo.modules.items():
-        if not rel.startswith('lib_scorer/'):
-            continue
-        for cname, cls in m.classes.items():
-            for st in cls.body:
-                n += 1
-                tgt = val = None
-                if isinstance(st, ast.Assign) and len(st.targets) == 1 and isinstance(st.targets[0], ast.Name):
-                    tgt, val = st.targets[0].id, st.value
-                elif isinstance(st, ast.AnnAssign) and isinstance(st.target, ast.Name) and st.value is not None:
-                    tgt, val = st.target.id, st.value
-                if val is None:
-                    continue
-                mutable = isinstance(val, (ast.Dict, ast.List, ast.Set, ast.ListComp, ast.DictComp, ast.SetComp)) or \
-                    (isinstance(val, ast.Call) and (call_name(val) or '').rpartition('.')[2] in ('dict', 'list', 'set', 'Counter', 'defaultdict',
-                                                                                              'OrderedDict', 'deque'))
-                if mutable:
-                    bad = True
-                    ctx.bad(rule, '%s::%s' % (rel, cname), 'class-level mutable attribute %s = %s' % (tgt, U(val)[:30]),
-                            'every instance of the class shares this object; the loader fills it in place, so two scorers for two '
-                            'rulesets in one process score with a mixture of both rulesets', None, st)
-    if ctx.floor(rule, 'lib_scorer', n, 4, 'class-body statements in lib_scorer') and not bad:
-        ctx.ok(rule, 'lib_scorer', 'no class of the scorer binds a mutable object at class level')
+    from .common import no_shared_class_state
+    no_shared_class_state(ctx, rule, ['lib_scorer/'], 4,
+                          'every instance of the class shares this object; the loader fills it in place, so two scorers for two '
+                          'rulesets in one process score with a mixture of both rulesets')
 
 
 def _adoption(ctx, rule):
